@@ -110,7 +110,17 @@ def honest(rng, gname=None, npeers=None):
         # (the client drops a connection that has nothing more to offer, so later announcements would be lost)
         if late:
             steps.append(send(j, *late))
+        if rng.random() < 0.25:
+            # changes its mind at once: the requests we sent are never answered, we are unchoked again later
+            steps.append(send(j, fr('Unchoke'), fr('Choke')))
+            steps.append({'op': 'advance', 'ms': rng.choice([5, 400])})
         steps.append(send(j, fr('Unchoke')))
+        # an honest peer may choke us and unchoke us again
+        if rng.random() < 0.35:
+            steps.append({'op': 'advance', 'ms': rng.choice([1, 3, 10])})
+            steps.append(send(j, fr('Choke')))
+            steps.append({'op': 'advance', 'ms': rng.choice([1, 100, 1500])})
+            steps.append(send(j, fr('Unchoke')))
         if j in leavers and rng.random() < 0.5:
             steps.append({'op': 'advance', 'ms': rng.choice([1, 200])})
             steps.append({'op': 'close', 'peer': j})
@@ -353,7 +363,13 @@ def handshakes(rng):
         elif kind != 'never':
             steps.append(send(j, h))
         if kind == 'twice':
-            steps.append(send(j, hs()))
+            h2 = hs()
+            r = rng.random()
+            if r < 0.4:
+                h2['ih'] = other
+            elif r < 0.7:
+                h2['id'] = wrong_id
+            steps.append(send(j, h2))
         # whatever happened, the peer now behaves like a leecher
         steps.append(send(j, bf(set())))
         steps.append(send(j, fr('Interested')))
@@ -414,15 +430,22 @@ def rotation_race(rng):
     return sc
 
 
-def tracker(rng, nfail=None):
+def tracker(rng, nfail=None, must=()):
     """C19: a run of failed/malformed announces followed by a good one that lists a peer; meanwhile
     an already connected peer keeps talking to the client."""
     gname = 'g4'
     pl, files, n, plens = geo(gname)
     nfail = rng.choice([0, 1, 2, 5, 63, 64, 65, 66, 120]) if nfail is None else nfail
     kinds = [{'k': 'refused'}, {'k': 'status', 'code': 500}, {'k': 'status', 'code': 404}, {'k': 'body', 'hex': b'garbage'.hex()},
-             {'k': 'body', 'hex': b'd14:failure reason4:nopee'.hex()}, {'k': 'body', 'hex': b'd8:intervali5ee'.hex()}, {'k': 'body', 'hex': ''}]
-    outcomes = [rng.choice(kinds) for _ in range(nfail)] + [{'k': 'peers', 'peers': [1]}]
+             {'k': 'body', 'hex': b'd14:failure reason4:nopee'.hex()}, {'k': 'body', 'hex': b'd8:intervali5ee'.hex()}, {'k': 'body', 'hex': ''},
+             # HTTP error whose body is a well-formed reply listing somebody else: still a failed announce
+             {'k': 'status', 'code': 503, 'hex': b'd8:intervali1800e5:peersld2:ip8:10.9.9.97:peer id20:-ZZ0000-decoydecoyde4:porti7777eeee'.hex()},
+             {'k': 'body', 'hex': b'd14:failure reason4:nope8:intervali1800e5:peersld2:ip8:10.9.9.97:peer id20:-ZZ0000-decoydecoyde4:porti7777eeee'.hex()}]
+    fails = [rng.choice(kinds) for _ in range(nfail)]
+    for i, mk in enumerate(must):
+        if fails:
+            fails[(i * 7 + rng.randrange(len(fails))) % len(fails)] = kinds[mk]
+    outcomes = fails + [{'k': 'peers', 'peers': [1]}]
     peers = [peer(0, {0, 1}, serve='none'), peer(1, set(range(n)), serve='good', listen=True)]
     steps = [{'op': 'connect', 'peer': 0}, send(0, hs(), bf({0, 1}))]
     t = 0
@@ -485,4 +508,181 @@ def from_model(script, idx=0):
     steps.append({'op': 'advance', 'ms': 200})
     sc = base(gname, peers, steps, [{'k': 'peers', 'peers': []}], pat=(idx * 37) % 251)
     sc['family'] = 'model'
+    return sc
+
+
+def midflight(rng):
+    """C11/C01: a peer completes its handshake (and gets our bitfield) while pieces are being fetched
+    from another peer that answers late; only verified, stored pieces may be advertised."""
+    gname = rng.choice(['g4', 'g3', 'g2'])
+    pl, files, n, plens = geo(gname)
+    peers = [peer(0, set(range(n)), serve='none', hold=0), peer(1, set(rng.sample(range(n), rng.randint(0, n))), serve='none'), peer(2, set(), serve='none')]
+    steps = [{'op': 'connect', 'peer': 0}, send(0, hs(), bf(range(n))), send(0, fr('Unchoke'))]
+    # peer 0 has been asked for a piece but does not answer yet
+    for j in (1, 2):
+        steps += [{'op': 'connect', 'peer': j}, send(j, hs())]
+        if rng.random() < 0.5:
+            steps.append(send(j, bf(peers[j]['has'])))
+        if rng.random() < 0.4:
+            steps += [{'op': 'serve', 'peer': 0, 'mode': 'good'}, {'op': 'advance', 'ms': 5}, {'op': 'serve', 'peer': 0, 'mode': 'none'}]
+    steps += [{'op': 'serve', 'peer': 0, 'mode': 'good'}, {'op': 'advance', 'ms': 300}]
+    # a late comer sees the complete bitfield
+    peers.append(peer(3, set(), serve='none'))
+    steps += [{'op': 'connect', 'peer': 3}, send(3, hs()), {'op': 'advance', 'ms': 50}]
+    sc = base(gname, peers, steps, [{'k': 'peers', 'peers': []}], pat=rng.randrange(251))
+    sc['family'] = 'midflight'
+    return sc
+
+
+def reassign(rng):
+    """C10/C12/C13: the manager paths that (re)assign pieces: repeated bitfields, Have while a piece is
+    in flight, choke/unchoke cycles, with more than ten pieces missing (no end game) or fewer."""
+    gname = rng.choice(['g12', 'g12', 'g4'])
+    pl, files, n, plens = geo(gname)
+    k = rng.randint(1, 3)
+    peers = [peer(j, set(range(n)), serve=rng.choice(['none', 'good']), hold=rng.choice([0, 1])) for j in range(k)]
+    steps = []
+    for j in range(k):
+        first = set(rng.sample(range(n), rng.randint(1, max(1, n // 2))))
+        steps += [{'op': 'connect', 'peer': j}, send(j, hs(), bf(first)), send(j, fr('Unchoke'))]
+        for _ in range(rng.randint(2, 6)):
+            what = rng.choice(['rebf_none', 'rebf', 'have', 'choke', 'unchoke', 'have', 'serve', 'adv'])
+            if what == 'rebf_none':
+                steps.append(send(j, bf(set())))
+            elif what == 'rebf':
+                steps.append(send(j, bf(rng.sample(range(n), rng.randint(0, n)))))
+            elif what == 'have':
+                steps.append(send(j, fr('Have', rng.randrange(n))))
+            elif what == 'choke':
+                steps.append(send(j, fr('Choke')))
+            elif what == 'unchoke':
+                steps.append(send(j, fr('Unchoke')))
+            elif what == 'serve':
+                steps.append({'op': 'serve', 'peer': j, 'mode': rng.choice(['good', 'none'])})
+            else:
+                steps.append({'op': 'advance', 'ms': rng.choice([1, 50])})
+    steps.append({'op': 'advance', 'ms': 300})
+    sc = base(gname, peers, steps, [{'k': 'peers', 'peers': []}], pat=rng.randrange(251))
+    sc['family'] = 'reassign'
+    return sc
+
+
+def endgame10(rng):
+    """C13: exactly ten pieces missing (not yet end game): a piece reserved for a silent peer must not be
+    handed to the others."""
+    gname = 'g10'
+    pl, files, n, plens = geo(gname)
+    k = rng.randint(5, 8)
+    peers = [peer(j, set(range(n)), serve='none') for j in range(k)]
+    steps = []
+    for j in range(k):
+        steps += [{'op': 'connect', 'peer': j}, send(j, hs(), bf(range(n))), send(j, fr('Unchoke'))]
+    # now one piece is completed: nine remain, end game begins; more unchokes re-pick
+    steps += [{'op': 'serve', 'peer': 0, 'mode': 'good'}, {'op': 'advance', 'ms': 20}, {'op': 'serve', 'peer': 0, 'mode': 'none'}]
+    for j in range(1, k):
+        if rng.random() < 0.5:
+            steps += [send(j, fr('Choke')), send(j, fr('Unchoke'))]
+    steps.append({'op': 'advance', 'ms': 100})
+    sc = base(gname, peers, steps, [{'k': 'peers', 'peers': []}], pat=rng.randrange(251))
+    sc['family'] = 'endgame10'
+    return sc
+
+
+GEOS['g10'] = (1000, [10000])
+
+
+def stale_choke(rng):
+    """C12: a choke arriving for a stale assignment: the piece was meanwhile completed by another peer."""
+    gname = rng.choice(['g4', 'g2'])
+    pl, files, n, plens = geo(gname)
+    peers = [peer(0, set(range(n)), serve='none'), peer(1, set(range(n)), serve='good')]
+    steps = [{'op': 'connect', 'peer': 0}, send(0, hs(), bf(range(n))), send(0, fr('Unchoke'))]
+    if rng.random() < 0.7:
+        steps.append(send(0, fr('Choke')))
+    steps += [{'op': 'connect', 'peer': 1}, send(1, hs(), bf(range(n))), send(1, fr('Unchoke')), {'op': 'advance', 'ms': 300}]
+    for _ in range(rng.randint(1, 3)):
+        steps.append(send(0, fr(rng.choice(['Choke', 'Choke', 'Unchoke']))))
+    steps.append({'op': 'advance', 'ms': 100})
+    sc = base(gname, peers, steps, [{'k': 'peers', 'peers': []}], pat=rng.randrange(251))
+    sc['family'] = 'stale_choke'
+    return sc
+
+
+def optimistic(rng):
+    """C09/C14: a leecher that holds something we want goes through regular slot -> choked (no interest) ->
+    optimistic unchoke -> choked again, and asks for a piece we own at every stage."""
+    gname = 'g4'
+    pl, files, n, plens = geo(gname)
+    peers = [peer(0, {0}, serve='good'), peer(1, {1}, serve='none')]
+    req = lambda: send(1, fr('Request', 0, 0, rng.choice([10, 100])))
+    at = lambda ms: {'op': 'advance_to', 'ms': ms}
+    # rotations happen every 10 s; the optimistic slot is re-drawn when the round counter wraps (30 s, 60 s, ...)
+    steps = [{'op': 'connect', 'peer': 0}, send(0, hs(), bf({0})), send(0, fr('Unchoke')), {'op': 'advance', 'ms': 200},
+             {'op': 'connect', 'peer': 1}, send(1, hs(), bf({1})), req(),
+             {'op': 'advance', 'ms': 25000, 'slice': 1000}, at(31000), req(),   # rotation at 30 s: never interested -> choked
+             {'op': 'advance', 'ms': 20000, 'slice': 1000}, at(rng.choice([52000, 55000, 58000])), send(1, fr('Interested')),
+             at(61000), req(),                                                   # rotation at 60 s draws it as optimistic unchoke
+             send(1, fr('NotInterested')),
+             {'op': 'advance', 'ms': 5000, 'slice': 1000}, at(rng.choice([71000, 81000])), req(), req(),   # choked again; the flag may be stale
+             {'op': 'advance', 'ms': 500}]
+    sc = base(gname, peers, steps, [{'k': 'peers', 'peers': []}], pat=rng.randrange(251))
+    sc['family'] = 'optimistic'
+    return sc
+
+
+def diskfault(rng):
+    """C01: storing a verified piece fails (a directory squats on the piece file name): the piece must not
+    become owned or advertised, the connection ends, other pieces are unaffected."""
+    gname = rng.choice(['g4', 'g2', 'g3'])
+    pl, files, n, plens = geo(gname)
+    blocked = sorted(rng.sample(range(n), rng.randint(1, max(1, n // 2))))
+    peers = [peer(0, set(range(n)), serve='good'), peer(1, set(range(n)), serve='good'), peer(2, set(), serve='none')]
+    steps = [{'op': 'connect', 'peer': 0}, send(0, hs(), bf(range(n))), send(0, fr('Unchoke')), {'op': 'advance', 'ms': 100},
+             {'op': 'connect', 'peer': 2}, send(2, hs()),
+             {'op': 'connect', 'peer': 1}, send(1, hs(), bf(range(n))), send(1, fr('Unchoke')), {'op': 'advance', 'ms': 200},
+             send(2, bf(set())), send(2, fr('Interested')), send(2, fr('Request', blocked[0], 0, 1)), {'op': 'advance', 'ms': 50}]
+    sc = base(gname, peers, steps, [{'k': 'peers', 'peers': []}], pat=rng.randrange(251))
+    sc['family'] = 'diskfault'
+    sc['blocked'] = blocked
+    return sc
+
+
+
+GEOS['g1'] = (16384, [100])
+
+
+def choke_race(rng):
+    """C12: in a one-piece torrent two peers fetch the same piece (end game); the loser's Choke and the
+    winner's last block arrive back to back, so the manager may see the Choke while the loser's
+    assignment still names the piece that has just become owned."""
+    gname = 'g1'
+    # the loser's stream is tiny: while it writes its requests it blocks until the harness reads, so its
+    # Choke (already queued) and the Have broadcast are found together when it continues
+    peers = [peer(0, {0}, serve='none', buf=rng.choice([8, 16, 20])), peer(1, {0}, serve='none')]
+    steps = [{'op': 'connect', 'peer': 1}, send(1, hs(), bf({0})), send(1, fr('Unchoke')),
+             {'op': 'connect', 'peer': 0}, send(0, hs(), bf({0}))]
+    parts = [{'peer': 0, 'frames': [fr('Unchoke')] + [fr('Choke')] * rng.choice([1, 1, 2])}, {'peer': 1, 'frames': [fr('Piece', 0, 0, 100)]}]
+    if rng.random() < 0.3:
+        parts.reverse()
+    steps.append({'op': 'burst', 'parts': parts})
+    steps.append(send(0, fr(rng.choice(['Choke', 'Unchoke']))))
+    steps.append({'op': 'advance', 'ms': 100})
+    sc = base(gname, peers, steps, [{'k': 'peers', 'peers': []}], pat=rng.randrange(251))
+    sc['family'] = 'choke_race'
+    return sc
+
+
+
+def handover(rng):
+    """C02: an honest peer unchokes us, changes its mind at once (chokes before answering), and another
+    honest peer delivers everything, including the piece the first one had been asked for."""
+    gname = rng.choice(['g1', 'g2', 'g4'])
+    pl, files, n, plens = geo(gname)
+    peers = [peer(0, set(range(n)), serve='good'), peer(1, set(range(n)), serve='good', lifo=rng.random() < 0.5)]
+    steps = [{'op': 'connect', 'peer': 0}, send(0, hs(), bf(range(n))), send(0, fr('Unchoke'), fr('Choke')),
+             {'op': 'connect', 'peer': 1}, send(1, hs(), bf(range(n))), send(1, fr('Unchoke')), {'op': 'advance', 'ms': rng.choice([5, 300])},
+             send(0, fr('Unchoke')), {'op': 'advance', 'ms': 25000, 'slice': 1000}]
+    sc = base(gname, peers, steps, [{'k': 'peers', 'peers': []}], pat=rng.randrange(251))
+    sc['family'] = 'honest'
+    sc['essential'] = [1]
     return sc
